@@ -5,7 +5,21 @@ record type x every kind of target identifier x {add_line, rename} on a fixed ba
 identifier of an *empty* segment - "S N 0 *" / "S N * LN:i:0", defined before or after the line that mentions it - is
 one kind of target: whether an identifier is in use may not depend on what the line that carries it holds).
 Random histories draw the length of a segment from {0, 0, 1, 4, 10, 10, 10} (profile entry seg_lengths of _hist), so
-that lines of every content, the boundary ones included, are what a duplicate / a rename / a lookup runs into:
+that lines of every content, the boundary ones included, are what a duplicate / a rename / a lookup runs into.
+
+A GFA1 link / containment carries its identifier in a tag, so it can get one while it is in the Gfa.  Both ways gfapy
+offers are generated (exhaustive cells on the base graph, and one random history in five - the other four are generated
+exactly as before): the user's  line.set("ID", n)  on a connected L/C line, without ID tag so far or with one, n fresh
+or the identifier of another line (steps ["settag", t, "ID", n]; the oracle treats such a call as a rename), and
+gfapy's own assignment: asking a GFA1 Gfa, or one of its L/C lines, for its GFA2 form (to_gfa2_s / to_gfa2; steps
+["convert", how] / ["convertline", t, how], also generated for the other directions) gives every converted L/C line
+without ID tag the identifier unused_name().  The conversion is a query; whether it succeeds is not looked at, but
+"at all times" includes the time after it: the invariants below are checked after every such call (a failed
+conversion has usually named the line already).  The same histories hold GFA1 links that arrive for a path step so far
+covered by a placeholder link only and carry the identifier of another line (an addition to an identifier in use that
+replaces a placeholder instead of being registered afresh).
+
+Checked after every step:
 
   * uniqueness  g.names has no duplicate and holds only strings; no two lines of str(g) carry the same written
                 identifier (S/P: name; E/G/O/U: non-'*' id; L/C: ID:Z tag) - a defined line next to a placeholder
@@ -20,6 +34,7 @@ that lines of every content, the boundary ones included, are what a duplicate / 
                 another line, raises gfapy.NotUniqueError (exactly that class) - except the documented merges:
                 U over U / O over O with the same group id (add and rename), and an L line whose end pair equals
                 that of a stored link or of its complement.
+                line.set("ID", n) on an L/C line is a rename in this sense (to a first identifier, if it had none).
                 A rename to an identifier that g.line() answers with the placeholder of a mentioned, not yet defined
                 line must raise NotUniqueError as well (a lookup answers "nothing for an identifier not in use", so
                 an identifier it answers is in use; a rename re-registers, it does not define the mentioned line)
@@ -36,7 +51,8 @@ rename-onto-placeholder-accepted, rename-onto-placeholder-raises-<Class>,
 identifier-carried-by-line-and-placeholder, mentioned-line-not-found-under-identifier,
 identifier-missing-from-names, lookup-misses-name, lookup-returns-wrong-line, try-get-line-disagrees,
 segment-lookup-disagrees, segment-lookup-returns-non-segment, lookup-finds-unused-identifier,
-try-get-line-of-unused-identifier, unused-name-in-use, rename-text-wrong, observation-raises}, foreign-exception.
+try-get-line-of-unused-identifier, unused-name-in-use, rename-text-wrong, observation-raises}, foreign-exception;
+op in {add-<RT>, rm, rmline-<RT>, disconnect, rename, settag (set("ID", n) included), deltag, convert, convertline}.
 On the pinned tree: rename-duplicate-accepted = DESIGN 7 #3; add-duplicate-accepted-O/U, add-duplicate-raises-TypeError
 and foreign-exception (add-O/U TypeError) = #4; lookup-misses-name-after-add-L/C, add-duplicate-accepted-L/C,
 names-duplicate-after-add-L = #20.
@@ -50,6 +66,8 @@ NOT CHECKED:
   * *_names properties other than names/segment lookup agreement (edge_names etc. are unions that build names).
   * external identifiers of F lines (not part of the namespace).
   * the identifier given by unused_name() is only checked for freshness, not for any particular value.
+  * what a conversion returns and whether it raises (also a non-gfapy exception): other properties; only the state
+    of the Gfa it was asked of is looked at.
 """
 from harness import lib
 from harness.props import _hist as H
@@ -60,12 +78,26 @@ RULE = ("exhaustive: on a base graph per version (3 segments incl. an integer-lo
         "integer, '*', the identifier of each other line incl. same type) x {add_line, rename}, and - after lines that "
         "mention an undefined segment V and (GFA2) an undefined set item W - every identified record type x {V, W} x "
         "{add_line, rename}, and - after an empty segment N (length 0) that an edge / a link mentions, defined before "
-        "resp. after that mention - every identified record type x N x {add_line, rename} (203 cells); random: "
+        "resp. after that mention - every identified record type x N x {add_line, rename}, and (GFA1) set('ID', n) on a "
+        "stored link / containment without ID tag x every target identifier, and to_gfa2_s / to_gfa2 of a convertible "
+        "graph / of its ID-less link / of its ID-less containment, twice (223 cells); random: "
         "histories of 4-25 steps (60 thorough), segments of length 0 / 1 / 4 / 10 (0: 2 in 7), "
         "with 35% calls aimed at identifiers in use (same type, other type, "
         "rename onto existing, rename onto an identifier that is only mentioned), renames to fresh and integer-looking names, forward references, removals in "
-        "between. Non-trivial: at least one rename or one addition aimed at an identifier in use. Distinct by case hash.")
+        "between; one history in five also with set('ID', n) on connected L/C lines (fresh n, n in use), conversions of "
+        "the Gfa or of a line to the other version (GFA1 -> GFA2 names the ID-less L/C lines), and links that replace "
+        "the placeholder link of a path step while carrying an identifier in use. Non-trivial: at least one rename, "
+        "set('ID'), conversion or one addition aimed at an identifier in use. Distinct by case hash.")
 
+# one history in five (gen_case index i % 5 == 4; the others are generated exactly as before): PROF plus identifiers
+# given to connected L/C lines by set("ID", n), conversions to the other version, late links with a borrowed identifier
+PROF_ID = H.profile(p_fail=0.35, close=0.4, rename_star=0.08,
+                    ops={"add": 45, "rm": 8, "rmline": 3, "disconnect": 3, "rename": 16, "settag": 3, "deltag": 1,
+                         "giveid": 14, "convert": 12},
+                    fails={"dup-same": 5, "dup-other": 6, "dup-link": 1, "version": 0.5, "malformed": 0.5, "header": 0,
+                           "grouptag": 0.5, "rename-existing": 5, "rm-missing": 0.5, "illegal-edit": 0, "empty-line": 0,
+                           "rename-placeholder": 4, "giveid-existing": 7, "dup-link-over-placeholder": 4},
+                    seg_lengths=[0, 0, 1, 4, 10, 10, 10])
 PROF = H.profile(p_fail=0.35, close=0.4, rename_star=0.08,
                  ops={"add": 45, "rm": 8, "rmline": 3, "disconnect": 3, "rename": 24, "settag": 3, "deltag": 1},
                  fails={"dup-same": 5, "dup-other": 6, "dup-link": 1, "version": 0.5, "malformed": 0.5, "header": 0,
@@ -94,6 +126,15 @@ MENTIONED = {"gfa1": ["V"], "gfa2": ["V", "W"]}
 # segment takes the place of a placeholder
 EMPTY = {"gfa1": ["S\tN\t*\tLN:i:0", "L\tB\t-\tN\t+\t*"],
          "gfa2": ["S\tN\t0\t*", "E\t*\tB-\tN+\t0\t5\t0\t0$\t*"]}
+
+
+# (GFA1) a link and a containment without ID tag, added after BASE: the line that set("ID", n) gives an identifier to
+ANON = {"L": "L\tB\t-\t1\t+\t*", "C": "C\t1\t+\tB\t+\t0\t*"}
+
+# (GFA1) a graph that can be converted to GFA2 (lengths, overlaps and positions known) and whose link and containment
+# carry no ID tag: gfapy gives them one (unused_name()) when they are converted
+CONV = ["S\tA\t*\tLN:i:10", "S\tB\t*\tLN:i:10", "S\t1\t*\tLN:i:10", "L\tA\t+\tB\t+\t4M", "C\tA\t+\tB\t-\t2\t3M",
+        "P\tp1\tA+,B+\t4M"]
 
 
 def mk_line(v, rt, n):
@@ -137,6 +178,12 @@ def _cells():
             for when in ("empty", "empty-late"):
                 out.append((v, "add-" + when, rt, "N"))
                 out.append((v, "rename-" + when, rt, "N"))
+    for rt in ("L", "C"):
+        for n in ["Z", "7", "1"] + [OWN["gfa1"][x] for x in H.IDENTIFIED["gfa1"]]:
+            out.append(("gfa1", "giveid", rt, n))
+    for how in ("to_gfa2_s", "to_gfa2"):
+        for rt in ("gfa", "L", "C"):
+            out.append(("gfa1", "convert", rt, how))
     return out
 
 
@@ -149,6 +196,15 @@ def n_exhaustive(tier):
 
 def exhaustive_case(i, tier):
     v, op, rt, n = CELLS[i]
+    if op == "giveid":
+        lines = BASE[v] + [ANON[rt]]
+        # the line without ID tag is the second of its type in every order gfapy lists them (see resolve in _hist)
+        return {"version": v, "flavour": v, "vlevel": 1, "hist": [["add", t] for t in lines] + [["settag", "@%s:1" % rt, "ID", n]],
+                "labels": ["add:%s" % t[0] for t in lines] + ["cell:%s:%s:%s" % (op, rt, n)]}
+    if op == "convert":
+        step = ["convert", n] if rt == "gfa" else ["convertline", "@%s:0" % rt, n]
+        return {"version": v, "flavour": v, "vlevel": 1, "hist": [["add", t] for t in CONV] + [step, list(step)],
+                "labels": ["add:%s" % t[0] for t in CONV] + ["cell:%s:%s:%s" % (op, rt, n), "convert:again"]}
     hist = [["add", t] for t in BASE[v]]
     labels = ["add:%s" % t[0] for t in BASE[v]]
     if op.endswith("-mentioned"):
@@ -170,11 +226,12 @@ def budget(tier):
 
 
 def gen_case(rng, tier, i):
-    return H.gen_case(rng, tier, PROF, p_unknown=0.0, vlevels=(1, 1, 1, 1, 2, 3, 0))
+    return H.gen_case(rng, tier, PROF_ID if i % 5 == 4 else PROF, p_unknown=0.0, vlevels=(1, 1, 1, 1, 2, 3, 0))
 
 
 def nontrivial(case):
-    return any(s[0] == "rename" or lab.startswith("fail:dup") or lab.startswith("cell:")
+    return any(s[0] == "rename" or lab.startswith("fail:dup") or lab.startswith("cell:") or
+               lab.startswith("giveid") or lab.startswith("fail:giveid") or lab.startswith("convert")
                for s, lab in zip(case["hist"], case["labels"]))
 
 
@@ -342,8 +399,10 @@ def oracle(case):
             if op != "rm":
                 r = lib.outcome(H.resolve, g, tgt)
                 line = r[1] if r[0] == "ok" else None
-            if op == "rename" and line is not None and not line.virtual:
-                new = step[2]
+            setid = op == "settag" and step[2] == "ID" and isinstance(step[3], str) and line is not None and \
+                line.record_type in ("L", "C")   # line.set("ID", n): the line is given the identifier n
+            if (op == "rename" or setid) and line is not None and not line.virtual:
+                new = step[3] if setid else step[2]
                 target_id = new
                 old = H.written_id(str(line), v)
                 lrt = line.record_type
@@ -366,7 +425,8 @@ def oracle(case):
         if r[0] == "skip":
             continue
         F = []
-        if r[0] == "foreign":
+        if r[0] == "foreign" and op not in ("convert", "convertline"):
+            # (whether and how a conversion fails is not this property's subject; the invariants after it are)
             F.append("foreign-exception: %s raises %s %s" % (H.step_kind(step), r[1], where))
         if demand is not None:
             what, rt, prt = demand
@@ -380,7 +440,7 @@ def oracle(case):
             if r[0] == "ok":
                 F.append("rename-onto-placeholder-accepted: %s line renamed to %r, which a lookup answered with the "
                          "placeholder of a line mentioned but not yet defined, without NotUniqueError %s" %
-                         (line.record_type, step[2], where))
+                         (line.record_type, target_id, where))
             elif r[0] == "gerr" and r[1] != "NotUniqueError":
                 F.append("rename-onto-placeholder-raises-%s: %s %s" % (r[1], line.record_type, where))
         if F:
